@@ -1,4 +1,4 @@
-CONSTANTS Hosts <- H3  Types <- TStatic  Weights <- W12  StratSet <- SRR  WtSet <- OnlyTrue  RefreshLists <- Lists1x  Codes <- C1
+CONSTANTS Hosts <- H3  Types <- TBoth  Weights <- W12  StratSet <- SAll  WtSet <- OnlyTrue  RefreshLists <- Lists1x  Codes <- C3
 SPECIFICATION Spec
 INVARIANTS TypeOK SelectsMember ErrorIffNoneEligible NoneEligibleMeans Rotation WeightedCycle CycleCoversAll
 CHECK_DEADLOCK FALSE
